@@ -56,11 +56,11 @@ CODE = ['x = 1', 'print(x)', 'x = (1,', '2)', "s = '''", "'''", 'def f():', '   
         'while True:', 'elif y:', 'finally:', 'nonlocal q', 'class B(', 'A):', 'x = [i for i in', 'range(3)]', 'lambda:',
         'def', 'async', 'import', 'from . import x', 'print(x)  #', '#', '# xdoctest: +REQUIRES(PY2, module:notthere)',
         "'\\", '\\', '\\\\', 'x = (', ')', '(((((', ']]]', '{[(', ')]}', 'if x: return', 'x = 1 # doctest: +NORMALIZE_WHITESPACE',
-        "print('>>> nested')", "s = '>>> '", "print('...')", '0b2', '1e', '1.e+', "u'x'", 'x = 1\r', 'x \x0b= 1', '﻿x = 1',
+        "print('>>> nested')", "s = '>>> '", "print('...')", '0b2', '1e', '1.e+', "u'x'", 'x = 1\r', 'x = 1\ry = 2', 'v = (1,\r 2)', 'x \x0b= 1', '﻿x = 1',
         'T.append(1)', 'T.append(2)', 'assert False', 'raise ValueError("v")', '1/0']
 TEXT = ['some prose', 'Example:', 'Examples:', 'Args:', '    a (int): desc', 'Returns:', 'Doctest:', 'Script:', 'Benchmark:',
         'DisableDoctest:', '', '', '1', '[1, 2]', 'Traceback (most recent call last):', '    ...', 'ValueError: x',
-        '<BLANKLINE>', '...', 'Note::', 'Example::', 'Example :', ' Example:', 'Todo', '\x0c', '\r', 'text >>> inline',
+        '<BLANKLINE>', '...', 'Note::', 'Example::', 'Example :', ' Example:', 'Todo', '\x0c', '\r', 'carriage\rreturn inside a line', 'text >>> inline',
         '>>>nospace', '....', '... x', '>> x', '>>>> x', 'Example: trailing', 'Args', 'Returns: int', 'example:', 'EXAMPLE:',
         'Yields:', 'Raises:', '    ValueError: if bad', 'Kwargs:', 'CommandLine:', '    python -m mod', 'Ignore:', 'SeeAlso:']
 INDENTS = ['', '', '', '    ', '    ', '  ', '        ', ' ', '\t', '            ', '\x0c', '      ']
@@ -242,11 +242,18 @@ VALID = [
 ]
 
 
-def module_source(text):
-    lines = ['"""module with one docstring of doubtful syntax"""', '', 'T = []', '']
+def module_source(text, raw=False, decorated=False):
+    """raw: the doubtful text is written as it is between triple quotes (control characters such as a lone carriage
+    return or a form feed then sit in the file itself); decorated: the valid functions after it carry a decorator"""
+    lines = ['"""module with one docstring of doubtful syntax"""', '', 'import functools', 'T = []', '']
     for i, (name, verdict, body) in enumerate(VALID):
         if i == 2:
-            lines += ['def doubtful():', '    ' + repr(text), '    return 1', '', '']
+            if raw and '"""' not in text and '\\' not in text and not text.endswith('"'):
+                lines += ['def doubtful():', '    """' + text + '"""', '    return 1', '', '']
+            else:
+                lines += ['def doubtful():', '    ' + repr(text), '    return 1', '', '']
+        if decorated and i >= 2:
+            lines += ['@functools.lru_cache(maxsize=None)']
         lines += ['def {}():'.format(name), '    """', '    Summary of {}.'.format(name), '', '    Example:']
         for ln in body:
             is_src = not (ln[0].isdigit() or ln in ('a1', 'not c'))
@@ -262,14 +269,14 @@ def module_source(text):
 def check_embedded(text, style):
     from xdoctest import core
     name = sandbox.unique_name('vpc14')
-    src = module_source(text)
+    src = module_source(text, raw=len(text) % 2 == 0, decorated=len(text) % 3 != 0)
     try:
         compile(src, name, 'exec')
     except (SyntaxError, ValueError):
         return 'unembeddable'
     with sandbox.scratch('c14') as d:
         path = os.path.join(d, name + '.py')
-        with open(path, 'w', encoding='utf8') as f:
+        with open(path, 'w', encoding='utf8', newline='') as f:      # no newline translation: a lone CR stays a lone CR
             f.write(src)
         try:
             try:
@@ -403,7 +410,7 @@ def jobs(tier):
     q = tier == 'quick'
     out = [('hyp_grammar#%d' % s, 'hyp_grammar', dict(n_examples=1500 if q else 60000)) for s in range(8)]
     out += [('hyp_mutated#%d' % s, 'hyp_mutated', dict(n_examples=800 if q else 25000)) for s in range(4)]
-    out += [('hyp_embedded#%d' % s, 'hyp_embedded', dict(n_examples=60 if q else 1500)) for s in range(2)]
+    out += [('hyp_embedded#%d' % s, 'hyp_embedded', dict(n_examples=500 if q else 6000)) for s in range(4)]
     out += [('atheris_empty#0', 'atheris_job', dict(runs=15000 if q else 250000, corpus='empty')),
             ('atheris_repo#0', 'atheris_job', dict(runs=15000 if q else 250000, corpus='repo'))]
     if not q:
